@@ -110,6 +110,19 @@ def systemConforms (table : List Edge) (pv : Lk → Option Nat) (progs : List (L
 
 def systemBalanced (progs : List (List (Op Lk))) : Bool := progs.all (balancedB [])
 
+/-- the program never requests a lock while it is holding that very lock (no re-locking) -/
+def noRelockB (p : List (Op Lk)) : Bool := (acqEdges [] p).all fun hl => hl.1 != hl.2
+
+def systemNoRelock (progs : List (List (Op Lk))) : Bool := progs.all noRelockB
+
+/-- `cr` justifies the edge, or the held lock is private to the acquiring thread.  An edge of the
+second kind that is not `exempt` (same class, `any`) can only hurt in one way: the thread requests
+the private lock it is holding. -/
+def edgeOkModRelock (cr : Cls → Nat) (e : Edge) : Bool := edgeOk cr e || e.priv
+
+/-- the table admits the class rank `cr` up to re-locking of thread-private locks -/
+def admitsModRelock (cr : Cls → Nat) (table : List Edge) : Bool := table.all (edgeOkModRelock cr)
+
 /-! ### finding a rank or a cycle (driver, and `decide`d instance statements) -/
 
 /-- one relaxation round of longest-path layering over the edges that need an order -/
